@@ -18,7 +18,7 @@ func init() {
 		ID: "C07", Level: "model_checking",
 		Rule:   "ELX on the real Client against a scripted server that keeps the authoritative ledger: server INITIAL_WINDOW_SIZE in {0,1,5}; a prelude upload of 65530 bytes leaves the connection window at 5; 1-2 (quick) / 3 (thorough) concurrent uploads with sizes from {0,1,3,6,16384,16385,40000}, buffered or streamed (declared / unknown length); every sequence up to the depth bound of {WINDOW_UPDATE(stream i, 1|2|big), WINDOW_UPDATE(0, 1|3|big), SETTINGS_INITIAL_WINDOW_SIZE in {0,1,4,70000}, SETTINGS_MAX_FRAME_SIZE in {16384, 20000}, SETTINGS without either}; then a closing phase grants everything. Oracle: ledger never negative at a DATA frame; no DATA frame above the MAX_FRAME_SIZE in force; at no quiescent state does an upload with unsent bytes have both windows positive; after the closing phase every body arrived complete with END_STREAM exactly once. Non-trivial: a window blocked a send somewhere in the sequence; distinct by (config, sequence).",
 		Assume: []string{"canonical internal schedule between events (grant-vs-spend races at lock granularity are explored with preemptions in C19)"},
-		Run:    runC07, Replay: replayC07, QuickS: 150, ThoroughS: 900,
+		Run:    runC07, Replay: replayC07, Policies: 1, QuickS: 150, ThoroughS: 900,
 	})
 }
 
